@@ -74,7 +74,8 @@ func TestVerif_C39_RestartWithFastGenerator(t *testing.T) {
 	r.SetRule("a store holding 0..size+3 records, pool size 2-6, a generator that returns a fresh parameter at once, a storage with an idempotent Delete and a ReadAll that takes 0-3 ms; NewParameterPool is started on it (the restart), must return, and after the worker has been stopped the pool is drained with GetNow. No parameter may come out twice, none that was never stored or generated, and the pool never holds more than its size. A construction that has not returned after 20 s is a violation only if two goroutine dumps 500 ms apart show NewParameterPool blocked on a channel send (a full pool that nobody drains), otherwise inconclusive. Non-trivial: the store held at least one record at the restart.")
 	n := r.N(150, 3000)
 	var handed, preloaded int64
-	for ci := 0; ci < n; ci++ {
+	blocked := 0
+	for ci := 0; ci < n && blocked < 2; ci++ {
 		rng := r.SubRand("restart", ci)
 		size := 2 + rng.Intn(5)
 		stored := rng.Intn(size + 4)
@@ -105,8 +106,10 @@ func TestVerif_C39_RestartWithFastGenerator(t *testing.T) {
 			b2 := c39fBlockedInConstruction()
 			r.Case(desc, stored > 0)
 			if b1 && b2 {
+				blocked++
 				r.Violation("restart:construction-blocked-on-full-pool", "NewParameterPool did not return: it is blocked sending a stored record to a pool that is already full", desc, nil)
 			} else {
+				blocked++
 				r.Inconclusive("watchdog: NewParameterPool did not return: " + desc)
 			}
 			sch.stop()
